@@ -9,6 +9,7 @@ import (
 	"os"
 	"path/filepath"
 	"sort"
+	"strconv"
 	"strings"
 	"sync"
 	"time"
@@ -385,7 +386,28 @@ func Main(args []string) int {
 					code = 2
 				}
 			}()
-			def.fn(c)
+			// a check whose own machinery gets wedged (e.g. by code under test closing descriptors that belong to
+			// the harness) must still end: what was observed so far is reported, the rest is inconclusive
+			limit := 25 * time.Minute
+			if tier == "thorough" {
+				limit = 5 * time.Hour
+			}
+			if v, err := strconv.Atoi(os.Getenv("VERIF_WATCHDOG_MIN")); err == nil && v > 0 {
+				limit = time.Duration(v) * time.Minute
+			}
+			done := make(chan interface{}, 1)
+			go func() {
+				defer func() { done <- recover() }()
+				def.fn(c)
+			}()
+			select {
+			case r := <-done:
+				if r != nil {
+					panic(r)
+				}
+			case <-time.After(limit):
+				c.Inconclusive("watchdog: the check did not finish within %v; what was observed until then is reported", limit)
+			}
 			return c.Finish()
 		}()
 		return code
